@@ -302,7 +302,8 @@ def rule_score_src(ctx):
     ctx.floor("best_score/best_move write sites", n, 2)
     lb = ctx.body(LOG_INFO)
     sym = ctx.sym(lb)
-    reads = any(mentions_field(sym.operand(blk.term["discr"]), "info", "best_score") for blk in lb.blocks if blk.term["k"] == "switch")
+    reads = any(mentions_field(sym.operand(blk.term["discr"]), "info", "best_score") for blk in lb.blocks if blk.term["k"] == "switch") or \
+        any(mentions_field(sym.operand(a), "info", "best_score") for _bi, t in lb.calls() for a in t.get("args", []))
     ctx.check(reads, "%s:score-from-best_score" % LOG_INFO, "the score text is selected by matching on info.best_score", lb.where(0), bad_what="log_uci_info does not read info.best_score")
 
 
@@ -479,22 +480,35 @@ INFO_VALUE_KEYS = {"depth", "seldepth", "nodes", "time", "nps", "hashfull", "tbh
 V = "\x01"
 
 
-def render_text(e, depth=0):
-    """The text a string-valued expression evaluates to, with every non-literal part replaced by the marker V;
-    None when the expression is not built from format!/String::new/literals in a way this reader understands."""
+def render_texts(e, ix=None, depth=0):
+    """All texts a string-valued expression can evaluate to, with every non-literal part replaced by the marker V; None when
+    the expression is not built from format!/String::new/literals/Option combinators over such in a way this reader understands."""
     if depth > 12:
         return None
     e = mir.strip_copies(e)
     if e[0] == "const" and isinstance(e[1], str):
-        return e[1]
+        return [e[1]]
+    if e[0] == "fn" and e[1].endswith("String::new"):
+        return [""]
     if e[0] == "call" and isinstance(e[1], str):
         c = e[1]
         if c.endswith("String::new") and not e[2]:
-            return ""
+            return [""]
         if c.endswith("hint::must_use") or c.endswith("String::as_str") or c.endswith("::deref") or c.endswith("::to_string") or c.endswith("::to_owned") or c.endswith("String::from"):
-            return render_text(e[2][0], depth + 1) if e[2] else None
+            return render_texts(e[2][0], ix, depth + 1) if e[2] else None
         if c.endswith("fmt::format") and e[2]:
-            return render_text(e[2][0], depth + 1)
+            return render_texts(e[2][0], ix, depth + 1)
+        if ix is not None and (c.endswith("Option::map_or_else") or c.endswith("Option::map_or")) and len(e[2]) == 3:
+            # opt.map_or_else(default_fn, |x| text): either the default or one of the texts the closure can return
+            dflt = e[2][1]
+            if c.endswith("map_or_else"):
+                d = render_texts(dflt, ix, depth + 1) if dflt[0] == "fn" else closure_texts(ix, dflt, depth + 1)
+            else:
+                d = render_texts(dflt, ix, depth + 1)
+            cl = closure_texts(ix, e[2][2], depth + 1)
+            if d is None or cl is None:
+                return None
+            return sorted(set(d) | set(cl))
         if c.endswith("fmt::Arguments::new") and len(e[2]) == 2:
             tmpl = mir.strip_refs(e[2][0])
             pieces = template_pieces(tmpl[1]) if tmpl[0] == "const" and isinstance(tmpl[1], str) else None
@@ -502,10 +516,10 @@ def render_text(e, depth=0):
             if pieces is None or arr[0] != "agg":
                 return None
             args = list(arr[3])
-            out = ""
+            outs = [""]
             for pc in pieces:
                 if pc is not None:
-                    out += pc
+                    outs = [o + pc for o in outs]
                     continue
                 if not args:
                     return None
@@ -513,14 +527,42 @@ def render_text(e, depth=0):
                 inner = None
                 if a[0] == "call" and a[1].endswith("Argument::new_display") and len(a[2]) == 1:
                     x = mir.strip_copies(a[2][0])
-                    # a String built by another format! in the same function is expanded; anything else is a value
-                    if x[0] == "call" and (x[1].endswith("fmt::format") or x[1].endswith("hint::must_use") or x[1].endswith("String::new")):
-                        inner = render_text(x, depth + 1)
-                out += V if inner is None else inner
-            return out
+                    # a String built in the same function is expanded; anything else is a value
+                    if x[0] == "call" and (x[1].endswith("fmt::format") or x[1].endswith("hint::must_use") or x[1].endswith("String::new")
+                                           or x[1].endswith("Option::map_or_else") or x[1].endswith("Option::map_or")):
+                        inner = render_texts(x, ix, depth + 1)
+                alts = [V] if inner is None else inner
+                outs = [o + t for o in outs for t in alts]
+                if len(outs) > 4096:
+                    return None
+            return outs
         if c.endswith("fmt::Arguments::from_str") or c.endswith("Arguments::from_str_nonconst"):
-            return render_text(e[2][0], depth + 1) if e[2] else None
+            return render_texts(e[2][0], ix, depth + 1) if e[2] else None
     return None
+
+
+def closure_texts(ix, clo, depth):
+    """The texts a closure returning a String can produce (one per path of its body)."""
+    from . import cases
+    if not (isinstance(clo, tuple) and clo[0] == "closure" and clo[1] in ix.bodies):
+        return None
+    run = cases.run(ix, ix.bodies[clo[1]], {})
+    if run.overflow:
+        return None
+    out = set()
+    for p in run.paths:
+        if p.end != "return" or p.ret is None:
+            continue
+        ts = render_texts(p.ret, ix, depth + 1)
+        if ts is None:
+            return None
+        out |= set(ts)
+    return sorted(out) if out else None
+
+
+def render_text(e, depth=0):
+    ts = render_texts(e, None, depth)
+    return ts[0] if ts and len(ts) == 1 else None
 
 
 def info_line_error(text):
@@ -580,13 +622,13 @@ def rule_info_syntax(ctx):
         if len(logs) != 1:
             seen["<%d log calls on one path>" % len(logs)] = "exactly one line per call is expected"
             continue
-        txt = render_text(logs[0][3][1])
+        txts = render_texts(logs[0][3][1], ix)
         n_lines += 1
-        if txt is None:
+        if txts is None:
             seen["<unreadable>"] = "the line is not built by format! from literals and values (cannot decide)"
             continue
-        err = info_line_error(txt)
-        seen[" ".join(txt.replace(V, "{}").split())] = err
+        for txt in txts:
+            seen[" ".join(txt.replace(V, "{}").split())] = info_line_error(txt)
     for line, err in sorted(seen.items()):
         ctx.check(err is None, "log_uci_info:line:%s" % line[:70], "`%s` is a well-formed info line" % line, b.where(0),
                   bad_what="log_uci_info can print `%s`: %s" % (line, err))
